@@ -228,6 +228,21 @@ end
 /-- textual preorder of the nodes the property requires to be visited, with the expected flags -/
 def expected (σ : Schema) (t : Node) (it ig : Bool) : List (Option Nat × Bool × Bool) := expectedX σ t true it ig
 
+/-! ## Print order of all nodes (what `to_string()` shows, for ordering by rendered position) -/
+
+def combineT (r : ClassRow) (fs : List (Nat × List Nat)) : List Nat :=
+  r.print.flatMap fun p => (fs.filter (fun f => f.1 = p)).flatMap (·.2)
+
+mutual
+/-- identities of all printed nodes in the order of their first printed position: the node, then for every printed
+slot (of any kind) its occupants in list order -/
+def textOrder (σ : Schema) : Node → List Nat
+  | .mk c _ t ks => t :: combineT (σ.row c) (textOrderL σ ks)
+def textOrderL (σ : Schema) : List Node → List (Nat × List Nat)
+  | [] => []
+  | k :: ks => (k.slot, textOrder σ k) :: textOrderL σ ks
+end
+
 /-! ## Decidable conditions on rows (Φ13) -/
 
 def slotsOf : List Node → List Nat
